@@ -21,6 +21,7 @@ RULE = (
     '; pass 5: directed histories with a prediction / training step under other jitter settings, a training step with part of the model frozen, and a rough prediction (no Cholesky, eval_cg_tolerance 0.3, rank-3 LOVE) between accurate ones'
     '; pass 6: exact Kronecker multitask family; training steps whose mode switches go through the objective object; partial state dicts (strict=False)'
     "; pass 7: fantasy_train (a child trains, the parent is compared again), first prediction of a fantasy child against recomputation, set_data_refused (a strict set_train_data refused half-way, caught by the caller)"
+    "; pass 8: training tensors edited in place and handed back to set_train_data (the same tensor objects)"
 )
 REQUIRED = ["step_matches_fresh", "final_matches_fresh", "op_output_matches_fresh", "monitor:cache_add", "monitor:clear_cache"]
 ASSUMPTIONS = [
